@@ -340,12 +340,16 @@ import importlib
 from fcp.parser import get_fcp_from_string
 from fcp.error import Logger
 job = json.load(sys.stdin)
+_generators = {}
 def gen(fcp, name):
     d = tempfile.mkdtemp(prefix="fcpdet_")
     try:
         buf = io.StringIO()
+        # a long-lived process may keep one generator object per plug-in and call it again and again
+        g = _generators.setdefault(name, importlib.import_module("fcp_" + name).Generator()) if job.get("reuse_generators") \
+            else importlib.import_module("fcp_" + name).Generator()
         with contextlib.redirect_stdout(buf):
-            res = importlib.import_module("fcp_" + name).Generator().generate(fcp, {"output": d})
+            res = g.generate(fcp, {"output": d})
         return sorted([os.path.relpath(str(x.get("path", "print")), d) if x.get("type") == "file" else "<print>", str(x["contents"])] for x in res)
     except Exception as e:
         return [["<raised>", type(e).__name__]]
@@ -355,6 +359,18 @@ out = []
 for step in job["steps"]:
     if step["op"] == "parse":
         cur = get_fcp_from_string(step["text"], Logger({})).unwrap()
+    elif step["op"] == "parse_files":
+        # a schema spread over files (`mod common;`), each schema in a directory of its own
+        from fcp.parser import get_fcp
+        root = tempfile.mkdtemp(prefix="fcpdetm_")
+        try:
+            for rel, text in step["files"].items():
+                p = os.path.join(root, rel)
+                os.makedirs(os.path.dirname(p), exist_ok=True)
+                open(p, "w").write(text)
+            cur = get_fcp(os.path.join(root, "main.fcp"), Logger({})).unwrap()
+        finally:
+            shutil.rmtree(root, ignore_errors=True)
     elif step["op"] == "gen":
         r = gen(cur, step["generator"])
         if step.get("record"):
@@ -430,6 +446,17 @@ def rich_schema(rng):
     return 'version: "3"\n\n' + "\n".join(out) + "\n"
 
 
+def as_files(text):
+    """the same schema with its enums and structs moved into `common.fcp` (bindings, services and devices need no
+    declaration before them)"""
+    decls = text.split("\n", 2)[2].strip("\n")
+    parts = re.split(r"\n(?=(?:enum|struct|impl|service|device) )", decls)
+    common = [p for p in parts if p.startswith(("enum ", "struct "))]
+    rest = [p for p in parts if not p.startswith(("enum ", "struct "))]
+    return {"main.fcp": 'version: "3"\nmod common;\n' + "\n".join(rest) + "\n",
+            "common.fcp": 'version: "3"\n' + "\n".join(common) + "\n"}
+
+
 def det_schemas(rng, n):
     from . import gen
     out = []
@@ -482,8 +509,14 @@ def run_c17(prop, tier):
         hist += [{"op": "parse", "text": text}]
         hist += [{"op": "gen", "generator": g, "record": True} for g in gens]
         hist += [{"op": "gen", "generator": g, "record": True} for g in gens]
-        jobs.append(({"steps": hist}, seeds[0]))
+        jobs.append(({"steps": hist, "reuse_generators": si % 2 == 0}, seeds[0]))
         meta.append((si, "history", seeds[0]))
+        if si % 2 == 1:
+            # (c) the same two schemas loaded from files that both say `mod common;`, in one process
+            fh = [{"op": "parse_files", "files": as_files(other)}] + [{"op": "gen", "generator": g} for g in gens]
+            fh += [{"op": "parse_files", "files": as_files(text)}] + [{"op": "gen", "generator": g, "record": True} for g in gens]
+            jobs.append(({"steps": fh, "reuse_generators": True}, seeds[0]))
+            meta.append((si, "history-files", seeds[0]))
     with ThreadPoolExecutor(16) as ex:
         res = list(ex.map(lambda j: run_script(*j), jobs))
     ref = {}
